@@ -1,0 +1,8 @@
+//go:build verif
+
+package header
+
+import "time"
+
+// VerifClockDrift exposes the configured clock-drift allowance to the conformance harness.
+func VerifClockDrift() time.Duration { return clockDrift }
